@@ -33,6 +33,16 @@ if __name__ == '__main__' and '--worker' in sys.argv:  # -----------------------
                     out.append(['notfound'])
                 except Exception as e:  # pylint: disable=broad-except
                     out.append(['err', type(e).__name__])
+            elif op[0] == 'reload':
+                mobj = sys.modules.get(op[1])
+                if mobj is None:
+                    out.append(['notfound'])
+                else:
+                    try:
+                        importlib.reload(mobj)
+                        out.append(['ok'])
+                    except Exception as e:  # pylint: disable=broad-except
+                        out.append(['err', type(e).__name__])
             elif op[0] == 'classinfo':
                 try:
                     obj = sys.modules[op[1]]
@@ -647,7 +657,7 @@ class Scenario:
 
         base = c['base'] or 'provider.Service'
         bases = f'Extra_, {base}' if c.get('extra') == 'mixin' else base
-        src = f"class {c['name']}({bases}{kw()}):\n"
+        src = f"class {c['name'].split('.')[-1]}({bases}{kw()}):\n"
         body = ''
         if c.get('run') == 'impl':
             body += '    def run(self):\n        return None\n'
@@ -698,8 +708,25 @@ class Scenario:
             os.makedirs(os.path.join(root, pkg), exist_ok=True)
 
             def render(mod, clss):
-                return (f'import abc\nfrom {IFC} import Base, Mid, _Part, Extra_\n\n'
-                        + ''.join(self.render_class(c, has_part(mod, c)) for c in clss))
+                src = f'import abc\nfrom {IFC} import Base, Mid, _Part, Extra_\n\n'
+                open_ns = None
+                for c in clss:
+                    text = self.render_class(c, has_part(mod, c))
+                    indented = ''.join(('    ' + ln if ln.strip() else ln) for ln in text.splitlines(True))
+                    bare = c['name'].split('.')[-1]
+                    if c.get('ns'):  # a provider class nested in a plain namespace class: qualname `<ns>.<bare>`
+                        if open_ns != c['ns']:
+                            src += f"class {c['ns']}:\n    \"\"\"namespace\"\"\"\n\n"
+                            open_ns = c['ns']
+                        src += indented
+                        continue
+                    open_ns = None
+                    if c.get('factory'):  # the class statement executed once per call: same qualname, new class object
+                        src += (f'def make_{bare}(tag):\n' + indented.rstrip('\n') + f'\n    {bare}.TAG = tag\n    return {bare}\n\n'
+                                + ''.join(f'{bare}_{i} = make_{bare}({i})\n' for i in range(c['factory'])) + '\n')
+                    else:
+                        src += text
+                return src
 
             init = render(pkg, pd['mods'].get('', []))
             if pd['all'] is not None:
@@ -743,9 +770,10 @@ def scenario_world(sc: Scenario, names: Names):
             if sub:
                 mods[f'{pkg}.{sub}'] = {'subs': [], 'classes': []}
     for mod, c, _, anc in sc.classes():
-        mods[mod]['classes'].append([names.mod(mod), names.n(c['name']), names.n(c['alias']) if c.get('alias') else None,
-                                     f.index[(mod, c['name'])], [[names.mod(m), names.n(q)] for m, q in anc],
-                                     [names.mod(p) for p in c.get('paths') or []]])
+        for _ in range(c.get('factory') or 1):
+            mods[mod]['classes'].append([names.mod(mod), names.n(c['name']), names.n(c['alias']) if c.get('alias') else None,
+                                         f.index[(mod, c['name'])], [[names.mod(m), names.n(q)] for m, q in anc],
+                                         [names.mod(p) for p in c.get('paths') or []]])
     return [[names.mod(m), [names.n(s) for s in d['subs']], d['classes']] for m, d in mods.items()]
 
 
@@ -791,7 +819,7 @@ class ScenGen:
         out = []
         names = ['Impl', 'Helper', 'Extra']
         for i in range(r.choice([1, 1, 2, 3])):
-            base = r.choice(['Base', 'Mid'] + [c['name'] for c in out])
+            base = r.choice(['Base', 'Mid'] + [c['name'] for c in out if not c.get('factory')])
             want = i == 0 and want_alias is not None
             c = {'name': names[i], 'base': base, 'alias': None}
             for attempt in range(8):
@@ -804,6 +832,25 @@ class ScenGen:
                     c['alias'] = want_alias
                 elif aliases_free and r.random() < 0.6:
                     c['alias'] = aliases_free.pop()
+            out.append(c)
+        if r.random() < 0.3:
+            # two different classes with the same bare name nested in two namespace classes (`Production.Node`,
+            # `Development.Node`): same module, same __name__, different __qualname__
+            for ns in ('Production', 'Development'):
+                c = {'name': f'{ns}.Node', 'ns': ns, 'base': r.choice(['Base', 'Mid']), 'alias': None}
+                c.update(self.shape(r.random() < 0.7, True))
+                if not sc_probe(mod, out + [c])[-1] and aliases_free and r.random() < 0.6:
+                    c['alias'] = aliases_free.pop()
+                out.append(c)
+        if r.random() < 0.25:
+            # a class made by a factory function called once or twice: the same statement, the same qualname
+            # (`make_Fac.<locals>.Fac`), another class object each time
+            c = {'name': 'make_Fac.<locals>.Fac', 'factory': r.choice([1, 2, 2]), 'base': r.choice(['Base', 'Mid']), 'alias': None}
+            c.update(self.shape(r.random() < 0.8, True))
+            if c.get('extra') == 'mixin':
+                c['extra'] = None
+            if not sc_probe(mod, out + [c])[-1] and aliases_free and r.random() < 0.6:
+                c['alias'] = aliases_free.pop()
             out.append(c)
         return out
 
@@ -886,7 +933,16 @@ class ScenGen:
                 for m in chosen:
                     pkg, sub = m.split('.')
                     first = packages[pkg]['mods'][sub]
-                    first.insert(r.randint(0, len(first)), dict(dupc, base=r.choice(['Base', 'Mid'])))
+                    pos = r.randint(0, len(first))
+                    while 0 < pos < len(first) and first[pos].get('ns') and first[pos - 1].get('ns') == first[pos]['ns']:
+                        pos += 1  # not into the middle of a namespace class
+                    first.insert(pos, dict(dupc, base=r.choice(['Base', 'Mid'])))
+                # … and two different classes with the same bare name (`Alpha.Twin`, `Beta.Twin`) in ONE module claiming
+                # one alias: what tells them apart is the qualified name only
+                others = [m for m in modules if m not in chosen] or modules
+                pkg, sub = r.choice(others).split('.')
+                for ns in ('Alpha', 'Beta'):
+                    packages[pkg]['mods'][sub].append(dict(dupc, name=f'{ns}.Twin', ns=ns, alias='twin', base=r.choice(['Base', 'Mid'])))
         if kind == 'abstract-alias':
             # two aliased abstract classes (in different modules when there are two): one that is abstract in the
             # extended sense only (an abstract class among its own attributes), one abstract through its methods
@@ -975,6 +1031,11 @@ class ScenGen:
         pos = sorted(r.randint(0, len(inter)) for _ in imps)
         for off, (p, imp) in enumerate(zip(pos, imps)):
             inter.insert(p + off, imp)
+        mods = [f'{p}.{s2}' if s2 else p for p, pd in sc.packages.items() for s2 in pd['mods']]
+        if mods:  # a module executed again (importlib.reload): same qualnames, new class objects
+            for _ in range(r.choice([1, 1, 2])):
+                inter.insert(r.randint(len(inter) // 3, len(inter)), ['reload', r.choice(mods)])
+            mixed = mixed[:len(mixed) // 2] + [['reload', r.choice(sc.imports or mods)]] + mixed[len(mixed) // 2:]
         twice = []
         for g in misses + hits:  # every third lookup asked twice in a row
             twice += [g, g] if r.random() < 0.35 else [g]
@@ -1049,13 +1110,16 @@ class C20(fw.Check):
             'Providers: generated packages (1..3 packages, 1..3 modules each plus classes in package __init__ files, 1..3 '
             'classes per module deriving from the interface, an intermediate or an earlier class; every class chooses whether '
             'it implements / declares abstract / inherits `run`, an extra abstract method, property or mixin and an inner class '
-            '(new abstract, assigned abstract, concrete override, still-abstract override, plain non-ABC); the interface is '
+            '(new abstract, assigned abstract, concrete override, still-abstract override, plain non-ABC); pairs of provider '
+            'classes with one bare name nested in two namespace classes, classes made by a factory function called once or '
+            'twice (same qualname, new class object), equal qualnames in different modules; the interface is '
             'abstract through a method, through an inner class only, or both; aliases, qualified names, __all__ lists with '
-            'ghosts) of kinds clean-explicit, collision-explicit, abstract-alias (one class abstract in the extended sense '
+            'ghosts) of kinds clean-explicit, collision-explicit (an alias defined in two modules and an alias claimed by two nested '
+            'classes with one bare name in one module), abstract-alias (one class abstract in the extended sense '
             'only, one through its methods), clean-lazy (half with 1..3 modules pre-imported explicitly), collision-lazy, '
             'preload, nested-lazy (a discovered class declares a further search path). Four histories per world (hits first; '
             'misses first with lookups asked twice in a row; shuffled with repeats; explicit imports interleaved with the '
-            'lookups) x every permutation (quick: <= 6 sampled) of the explicit imports x PYTHONHASHSEEDs, each in a freshly '
+            'lookups; importlib.reload of a module in the last two) x every permutation (quick: <= 6 sampled) of the explicit imports x PYTHONHASHSEEDs, each in a freshly '
             'forked process of an interpreter that has only forml imported; under the first two hash seeds and import orders '
             'every lookup additionally on its own in a fresh process (single-shot answer). Lookups: every alias / qualified '
             'name incl. those of abstract classes and of the interface classes, three fixed unknown references and up to three '
@@ -1448,14 +1512,16 @@ class C20(fw.Check):
             if op[0] == 'import':
                 if op[1] < len(order):
                     ops.append(['import', order[op[1]]])
+            elif op[0] == 'reload':
+                ops.append(['reload', op[1]])
             else:
                 ops.append(['get', IFC, op[1], op[2]])
         return ops
 
     @staticmethod
     def _single_key(ops, k):
-        """the lookup at position k asked at once: the explicit imports that precede it, then the lookup alone"""
-        return tuple(op[1] for op in ops[1:k] if op[0] == 'import'), ops[k][2], ops[k][3]
+        """the lookup at position k asked at once: the explicit imports (and reloads) that precede it, then the lookup alone"""
+        return tuple((op[0], op[1]) for op in ops[1:k] if op[0] in ('import', 'reload')), ops[k][2], ops[k][3]
 
     @staticmethod
     def _classinfo_ops(sc: Scenario):
@@ -1499,7 +1565,7 @@ class C20(fw.Check):
                 for k, op in enumerate(ops):
                     if op[0] == 'get':
                         key = self._single_key(ops, k)
-                        sops = [['import', IFC]] + [['import', m] for m in key[0]] + [op]
+                        sops = [['import', IFC]] + [[kind, m] for kind, m in key[0]] + [op]
                         entry['single'].append((order, key, sops, job(1, d, sops)))
             if classinfo:
                 iops = self._classinfo_ops(sc)
@@ -1548,6 +1614,10 @@ class C20(fw.Check):
             for op, r in zip(ops, results):
                 if op[0] == 'import':
                     mops.append(['import', names.mod(op[1])])
+                elif op[0] == 'reload':
+                    # qualnames that are plain identifiers are interned strings: the re-executed statement is the same class
+                    mops.append(['reload', names.mod(op[1]), [names.n(c['name']) for m, c, _, _ in sc.classes()
+                                                              if m == op[1] and '.' not in c['name']]])
                 else:
                     mops.append(['get', [names.mod(op[1]), names.n(op[2])], ref_sexp(op[3], names),
                                  [names.mod(v) for v in r[-1]]])
@@ -1562,7 +1632,7 @@ class C20(fw.Check):
     def _impl_canon(ops, results, names: Names):
         out = []
         for op, r in zip(ops, results):
-            if op[0] == 'import':
+            if op[0] in ('import', 'reload'):
                 out.append(r[0] if r[0] != 'err' else ['err', r[1]])
             elif r[0] == 'ok':
                 out.append(['ok', [names.mod(r[1]), names.n(r[2])]])
@@ -1607,7 +1677,7 @@ class C20(fw.Check):
                                 grew = True
         by_alias: dict = {}
         for (mod, name), (c, abstract) in classes.items():
-            if c.get('alias'):
+            if c.get('alias') and (mod, name) not in by_alias.get(c['alias'], []):
                 by_alias.setdefault(c['alias'], []).append((mod, name))
         colliding = {a for a, cs in by_alias.items() if len(cs) > 1}
         defective = bool(colliding) or any(abstract and c.get('alias') for c, abstract in classes.values())
@@ -1758,6 +1828,11 @@ class C20(fw.Check):
         finally:
             shutil.rmtree(root, ignore_errors=True)
         t1 = time.time()
+        for i in first:
+            for mod, c, abstract, _ in scenarios[i].classes():
+                if c.get('ns') or c.get('factory'):
+                    self.histogram[('nested class (equal bare names)' if c.get('ns') else f'factory-made class x{c["factory"]}')
+                                   + (' aliased' if c.get('alias') else '')] += 1
         lines, metas = [], []
         for i, o in enumerate(outs):
             for order, seed, ops, results in o['runs']:
@@ -1785,6 +1860,11 @@ class C20(fw.Check):
             impl = self._impl_canon(ops, results, names)
             mod = self._model_canon(ans)
             gets = [r for op, r in zip(ops, results) if op[0] == 'get']
+            if what == 'history':
+                for op, r in zip(ops, results):
+                    if op[0] == 'reload':
+                        self.histogram['reload: ' + ('not loaded' if r[0] == 'notfound' else 'accepted' if r[0] == 'ok'
+                                                     else 'raised ' + r[1])] += 1
             self.case(('bank', json.dumps(sc.to_json(), sort_keys=True), tuple(order), seed, json.dumps(ops) if what == 'single' else ''),
                       f'bank {sc.kind} imports={len(order)} {sc.sequence if what == "history" else "single-shot"}',
                       nontrivial=any(r[0] == 'ok' for r in gets),
@@ -1832,11 +1912,16 @@ class C20(fw.Check):
     @staticmethod
     def _smaller(sc: Scenario, order):
         """candidates one step smaller: a history operation, a module, a class, a package, an `__all__` entry removed"""
-        out = []
+        out, ops_out = [], []
         hist = sc.history
+        if sum(op[0] != 'import' for op in hist) > 1:  # all lookups / reloads at once, then half of them
+            ops_out.append((sc.with_history([op for op in hist if op[0] == 'import']), order))
+            rest = [i for i, op in enumerate(hist) if op[0] != 'import']
+            for part in (rest[:len(rest) // 2], rest[len(rest) // 2:]):
+                ops_out.append((sc.with_history([op for i, op in enumerate(hist) if i not in part]), order))
         for i in range(len(hist)):
-            if hist[i][0] == 'get':
-                out.append((sc.with_history(hist[:i] + hist[i + 1:]), order))
+            if hist[i][0] in ('get', 'reload'):
+                ops_out.append((sc.with_history(hist[:i] + hist[i + 1:]), order))
         for slot in range(len(sc.imports)):
             if slot < len(order):
                 mod = order[slot]
@@ -1885,9 +1970,9 @@ class C20(fw.Check):
                 v = rebuilt({p: (x if p != pkg else {'all': None, 'mods': x['mods']}) for p, x in sc.packages.items()})
                 if v:
                     out.append((v, order))
-        return out
+        return out + ops_out  # the world first (packages, imports, modules, classes), then the history
 
-    def _shrink_bank(self, v: fw.Violation, rounds: int = 14) -> fw.Violation:
+    def _shrink_bank(self, v: fw.Violation, rounds: int = 30) -> fw.Violation:
         """Greedy shrinking of a failing provider scenario: as long as some one-step-smaller candidate still violates the
         property with the same signature on the real code (same hash seeds, same import order), continue with it."""
         w = v.witness
